@@ -156,6 +156,9 @@ def trimSpace (s : Bytes) : Bytes :=
 /-- The rejection test of `NewInfo`: `strings.TrimSpace(p) == ".."`. -/
 def isDotDotName (p : Bytes) : Bool := trimSpace p == dotdot
 
+/-- The name test of the repaired `NewInfo`: `TrimSpace(name)` is `".."` or `"."`. -/
+def isDotOrDotDotName (p : Bytes) : Bool := trimSpace p == dotdot || trimSpace p == dot
+
 /-! ### `filepath.Clean` / `filepath.Join` (Unix) -/
 
 /-- `strings.Split(s, "/")`. -/
